@@ -589,3 +589,20 @@ def containers(rng, n):
         rng.shuffle(b)
         out.extend(b)
     return out[:n]
+
+
+def degenerate_trees():
+    """archives at the edge: nothing in them, nothing but directory placeholders, nothing but links that
+    lead nowhere, a single empty document"""
+    return [
+        ("no-members", []),
+        ("only-directory-placeholders", [{"path": "a", "kind": "dir", "explicit": True, "flag": False},
+                                         {"path": "a/b", "kind": "dir", "explicit": True, "flag": False},
+                                         {"path": "c", "kind": "dir", "explicit": True, "flag": False}]),
+        ("only-dangling-links", [{"path": "l1", "kind": "link", "dest": "nowhere", "flag": False},
+                                 {"path": "l2", "kind": "link", "dest": "../outside.txt", "flag": False},
+                                 {"path": "l3", "kind": "link", "dest": "l3", "flag": False}]),
+        ("one-empty-file", [{"path": "empty.txt", "kind": "file", "data": "", "flag": False}]),
+        ("one-empty-directory-and-a-dot-file", [{"path": "d", "kind": "dir", "explicit": True, "flag": False},
+                                                {"path": ".hidden", "kind": "file", "data": "", "flag": False}]),
+    ]
